@@ -76,7 +76,7 @@ func (r *c01Reg) accepts(val int) bool {
 	switch r.filter {
 	case 2:
 		return false
-	case 3:
+	case 3, 4:
 		return val > r.cut
 	}
 	return true
@@ -281,6 +281,13 @@ func c01Opts(r *c01Reg, sequential bool) []SubscribeOption {
 	case 3:
 		cut := r.cut
 		opts = append(opts, WithFilter(func(e evA) bool { return e.N > cut }))
+	case 4:
+		// a predicate typed on an interface the event satisfies
+		cut := r.cut
+		opts = append(opts, WithFilter(func(e any) bool {
+			a, ok := e.(evA)
+			return ok && a.N > cut
+		}))
 	}
 	return opts
 }
@@ -305,7 +312,7 @@ func c01SameMultiset(got, want []c01Entry) bool {
 	return true
 }
 
-//verif:entry property=C01 tier=both bounds="options: one type, n<=N registrations each with arbitrary Once/Async/Sequential/context-aware flags and filter in {none, accept, reject, N>cut}; P consecutive publishes with symbolic values, each through Publish[T] or as an interface value; async deliveries compared as a multiset after Wait" cover="two-publishes" N_quick=2 N_thorough=3 P_quick=2 P_thorough=2
+//verif:entry property=C01 tier=both bounds="options: one type, n<=N registrations each with arbitrary Once/Async/Sequential/context-aware flags and filter in {none, accept, reject, N>cut, N>cut as a predicate on any}; P consecutive publishes with symbolic values, each through Publish[T] or as an interface value; async deliveries compared as a multiset after Wait" cover="two-publishes" N_quick=2 N_thorough=3 P_quick=2 P_thorough=2
 func harnessC01Options() {
 	N, P := vParam("N", 2), vParam("P", 2)
 	c01Log, c01Re = nil, nil
@@ -313,8 +320,8 @@ func harnessC01Options() {
 	m := &c01Model{}
 	n := vInt(1, N)
 	for i := 0; i < n; i++ {
-		r := &c01Reg{id: i, once: vBool(), async: vBool(), filter: vInt(0, 3)}
-		if r.filter == 3 {
+		r := &c01Reg{id: i, once: vBool(), async: vBool(), filter: vInt(0, 4)}
+		if r.filter >= 3 {
 			r.cut = vInt(-2, 2)
 		}
 		seq := vBool()
